@@ -359,7 +359,7 @@ def coq_residues(sysd):
 BH_TY = "bool * bool * bool * (Z * Z) * option (Z * Z) * option (Z * Z) * (Z * Z) * (Z * Z) * Z * topo * list frame"
 WN_TY = "bool * bool * bool * (Z * Z) * Z * topo * list frame"
 KS_TY = "Z * hvariant * Z * (Z * Z) * Z * list residue * list vec * vec"
-SC = 1 << 64
+SC = 1 << 44
 
 
 def needs_prev_incomplete(sysd):
@@ -418,10 +418,11 @@ def run_systems(ctx, systems, batch=20):
                         exp = clist([clist(["(%s, %s)" % (cnat(a), cz(int(round(Fraction(e) * (1 << 32))))) for a, e in sorted(row)])
                                      for row in rows])
                         oob = s["frames"][fi - 1]["xyz"][-1] if fi > 0 else s["oob"]
-                        for hv in ("h_cur", "h_fix"):
+                        for hv in (("h_cur", "h_fix") if needs_prev_incomplete(s) else ("h_cur",)):
                             inp = "(%s, %s, %s, %s, %s, res_%d, f_xyz (nth %d frames_%d (mkFrame [] None)), %s)" % (
                                 cz(G), hv, cz(int(KS_GE * SC)), cq(KS_GCA), cz(int(KS_TOL * SC)), si, fi, si, cvec(oob))
-                            ks.append((dict(key, frame=fi, variant=hv, shape=fr["shape"], n=n), inp, exp, r))
+                            ks.append((dict(key, frame=fi, variant=hv if needs_prev_incomplete(s) else "both",
+                                            shape=fr["shape"], n=n), inp, exp, r))
         req = ["MD.Hbond.Model", "MD.Hbond.KsModel", "MD.Hbond.Run"]
         # --- baker_hubbard / wernet_nilsson
         for name, jobs, ty_in, ty_out, fn, chk in (
@@ -436,7 +437,7 @@ def run_systems(ctx, systems, batch=20):
             if not good:
                 continue
             bad, errs = ctx.coq_mismatches(req, (ty_in, ty_out), chk, fn, [(i, e) for _k, i, e, _r in good],
-                                           shard=40, prelude=prelude)
+                                           shard=12, prelude=prelude)
             if errs:
                 ctx.break_("correspondence:coqc-evaluation", "\n".join(errs))
                 return
@@ -459,7 +460,7 @@ def run_systems(ctx, systems, batch=20):
                          expected="one sparse matrix per frame", tags={"fn": "kabsch_sander", "kind": "raises"})
         if good:
             bad, errs = ctx.coq_mismatches(req, (KS_TY, "list (list (nat * Z))"), "(fun c e => check_ks c e)", "(fun c => c)",
-                                           [(i, e) for _k, i, e, _r in good], shard=60, prelude=prelude)
+                                           [(i, e) for _k, i, e, _r in good], shard=25, prelude=prelude)
             if errs:
                 ctx.break_("correspondence:coqc-evaluation", "\n".join(errs))
                 return
@@ -489,9 +490,10 @@ def decide_ks(ctx, systems, meta):
     fails = {"h_cur": [], "h_fix": []}
     frames = {}
     for k, r in meta:
-        frames.setdefault((k["sys"], k["call"], k["frame"]), {})[k["variant"]] = k["bad"]
-        if k["bad"]:
-            fails[k["variant"]].append(k)
+        for hv in (("h_cur", "h_fix") if k["variant"] == "both" else (k["variant"],)):
+            frames.setdefault((k["sys"], k["call"], k["frame"]), {})[hv] = k["bad"]
+            if k["bad"]:
+                fails[hv].append(k)
     n_diff = 0
     for (si, ci, fi), v in frames.items():
         s = systems[si]
